@@ -38,6 +38,16 @@ def check(ctx):
     # touches the configured frames (C09/R4)
     from rules import c09
     c09.rule_override(ctx, F, "R9")
+    # "current_values equals the timeline evaluated at the time spent in that state": advance accumulates exactly the
+    # elapsed time and re-evaluates once at the new time (C06/R1-R2)
+    from rules import c06
+    before = len(ctx.obs)
+    notes = len(ctx.notes)
+    c06.check(ctx)
+    del ctx.notes[notes:]
+    for o in ctx.obs[before:]:
+        o["key"] = o["key"].replace("C05/%s/" % o["rule"], "C05/R11/%s/" % o["rule"].lower(), 1)
+        o["rule"] = "R11"
     ctx.notes.append("not decided: the values themselves (float results of timeline evaluation)")
     ctx.assumptions += ["the decision table is the complete transition relation of the animator: R8 shows no other "
                         "function writes its fields", "MapLike contract as in C04"]
